@@ -20,7 +20,7 @@ type c17Case struct {
 	Slot  string   `json:"slot"`  // missing | equal | different
 }
 
-var c17Atoms = []string{"ok-any", "ok-type", "ok-custom", "miss-any", "miss-type", "miss-custom", "bad-type", "bad-custom", "bad-type2", "bad-syntax", "bad-type-null", "bad-custom-chan", "bad-any-child-after-parent", "bad-type-tagged", "bad-type-anchored", "bad-custom-alias", "miss-type-between"}
+var c17Atoms = []string{"ok-any", "ok-type", "ok-custom", "miss-any", "miss-type", "miss-custom", "bad-type", "bad-custom", "bad-type2", "bad-syntax", "bad-type-null", "bad-custom-chan", "bad-any-child-after-parent", "bad-type-tagged", "bad-type-anchored", "bad-custom-alias", "miss-type-between", "miss-any-extends", "bad-type-malformed-among"}
 
 const (
 	c17JSONDoc  = `{"a":1,"b":"x","c":{"d":true},"e":2,"n":null,"f":2.5,"g":7}`
@@ -149,6 +149,24 @@ func c17Build(api string, atoms []string, eomp bool, dropMissing bool) c17Built 
 			if eomp {
 				b.fails = append(b.fails, `Type("`+p("missing")+`")`)
 			}
+		case "miss-any-extends":
+			// ONE Any: an existing path first, then a MISSING key whose text merely extends it (b, b_total): reported like any missing path
+			m := match.Any(p("b"), p("b_total")).ErrOnMissingPath(eomp)
+			if dropMissing {
+				m = match.Any(p("b"))
+			}
+			b.jm, b.ym = append(b.jm, m), append(b.ym, m)
+			if eomp && !dropMissing {
+				b.fails = append(b.fails, `Any("`+p("b_total")+`")`)
+			}
+		case "bad-type-malformed-among":
+			// ONE YAML Type over a path that cannot be parsed, a missing path and a wrong-typed value: all three are named
+			if !yaml {
+				b.skip = true
+				continue
+			}
+			b.ym = append(b.ym, match.Type[string]("c.d", "$.nowhere", "$.e"))
+			b.fails = append(b.fails, `Type("c.d")`, `Type("$.nowhere")`, `Type("$.e")`)
 		case "bad-any-child-after-parent":
 			// ONE Any whose first path replaces the parent of its second path: the second path no longer exists when its turn comes
 			if yaml {
@@ -395,6 +413,9 @@ func c17OnlyOK(atoms []string) []string {
 	for _, a := range atoms {
 		if a == "ok-type" && seenType {
 			continue
+		}
+		if a == "miss-any-extends" {
+			out = append(out, "ok-any") // what it does when the absent path is ignored: it masks b
 		}
 		if a == "miss-type-between" && !seenBetween {
 			out = append(out, "ok-type-fg") // what it does when the absent path is ignored
